@@ -478,6 +478,9 @@ class Engine:
             self.xsite(p, "StopIteration", "next()", pos[0], e.lineno, fr)
         if isinstance(f, ast.Name) and f.id == "len" and pos and pos[0] == ("c", None):
             self.xsite(p, "TypeError", "none-len", pos[0], e.lineno, fr)
+        if isinstance(f, ast.Name) and f.id in ("max", "min") and len(pos) == 1 and "default" not in kws and pos[0][0] not in ("tuple",):
+            # max()/min() of one iterable raises ValueError when it is empty; recorded as an index-0 site so that a dominating length guard discharges it
+            self.xsite(p, "ValueError", "extremum", ("sub", pos[0], ("c", 0)), e.lineno, fr)
 
     def pattern_sv(self, pat, subj, p, fr):
         """(condition SV, captured names) of a structural pattern; None for patterns outside the subset"""
